@@ -454,6 +454,8 @@ def _install(ch):
                 raise io.UnsupportedOperation('tallysim: mode %r not modelled' % mode)
             return SimWriteFile(ch, os.fspath(file), rel, mode, encoding, errors, newline)
         rp = ch.reads.get(rel) if rel is not None else None
+        if rel is not None and ch.plan.get('log_reads'):
+            ch.log({'k': 'read', 'path': rel})
         if rp:
             ch.log({'k': 'readfault', 'path': rel, 'plan': rp})
             if rp['kind'] == 'oserror':
